@@ -20,7 +20,7 @@ def check(tier, seed, replay=None):
                 c.pop(k, None)
     else:
         cases = []
-        plan = [("Cont1.cfg", 800, None), ("Cont2.cfg", 700, None), ("Mixed1.cfg", 100, None),
+        plan = [("Cont1.cfg", 800, None), ("Cont2.cfg", 700, None), ("Mixed1.cfg", 100, None), ("Offset1.cfg", 200, None), ("Offset2.cfg", 200, None),
                 ("SimCont3.cfg", 60 if tier == "quick" else 3000, (3 if tier == "quick" else 30, 9))]
         for cfg, n, sim in plan:
             cs, m = lpcases.family(cfg, tier, seed, n, sim)
